@@ -233,7 +233,7 @@ PLAN["C10"] = {
 PLAN["C07"] = {
     "level": "exploration",
     "rule": ("rapid, on real Groth16 systems set up in-process (quick: insertion and deletion at depth 3/batch 2; thorough: + (2,3),(4,1) in both modes, (2,4) insertion, (1,4) deletion): parameter sets that are VALID (generated histories/batches as C01/C02, "
-             "input hash = reference packing hash, reduced or as the raw 256-bit Keccak value), INVALID by one batch mutation (every class of C01/C02 expressible with uint32 indices), carrying a WRONG HASH, or of the WRONG SHAPE "
+             "input hash = reference packing hash, reduced or as the raw 256-bit Keccak value), INVALID by one batch mutation (every class of C01/C02 expressible with uint32 indices; plus the single-check FOCUS classes built deliberately: a write onto an occupied leaf with that write's post-root, a start index or deletion index with a multiple of 2^depth / 2^(depth+1) added and the hash recomputed, a deletion presenting the wrong item on the genuine path — TestC07_Invalid draws hundreds of refusals, which cost a failed solve rather than a proof), carrying a WRONG HASH, or of the WRONG SHAPE "
              "(batch+-1, depth+-1, ragged, empty, short index/commitment lists, and ONE array longer or shorter than the others — 1-3 extra Merkle proofs (full, copied, empty, nil or over-long rows), an extra commitment or index — so that the valid batch is a prefix of the set; TestC07_Shapes draws hundreds of these per mode, they are refused before any proving work). Validity is decided by the reference relation + packing. Oracle: valid => Prove* returns (proof, nil) and, for every candidate public input "
              "h, h+r, h+2r (accept) and h+-1, h xor one bit, hash of a perturbed batch, 0, random (reject), both Verify* of the same system and gnark's groth16.Verify on a harness-built public witness agree with 'candidate == h mod r'; "
              "the proving system of the other mode with the same dimensions rejects the proof through either Verify entry point; invalid or mis-shaped => (nil proof, error), never a panic. "
@@ -244,10 +244,12 @@ PLAN["C07"] = {
     "level_note": "independent setups per run (toxic waste discarded); blinding factors are random and not controlled by VERIF_SEED",
     "quick": [{"test": "TestC07_Insertion", "checks": 45, "timeout": 900},
               {"test": "TestC07_Deletion", "checks": 45, "timeout": 900},
-              {"test": "TestC07_Shapes", "checks": 150, "shards": 2, "timeout": 900}],
+              {"test": "TestC07_Shapes", "checks": 150, "shards": 2, "timeout": 900},
+              {"test": "TestC07_Invalid", "checks": 120, "shards": 2, "timeout": 900}],
     "thorough": [{"test": "TestC07_Insertion", "checks": 150, "shards": 8, "timeout": 3000},
                  {"test": "TestC07_Deletion", "checks": 150, "shards": 8, "timeout": 3000},
-                 {"test": "TestC07_Shapes", "checks": 600, "shards": 8, "timeout": 3000}],
+                 {"test": "TestC07_Shapes", "checks": 600, "shards": 8, "timeout": 3000},
+                 {"test": "TestC07_Invalid", "checks": 400, "shards": 8, "timeout": 3000}],
 }
 
 PLAN["C11"] = {
